@@ -17,6 +17,9 @@
 (*   approval kind of the approval signature by the current custodian      *)
 (*   newc, chg    entries not present in the previous custodian state /    *)
 (*            present with another payee                                   *)
+(*   keyvar   how a new / changed entry differs from the previous state:   *)
+(*            "spend" (another spend key) | "view" (the same spend key,    *)
+(*            another view key: addresses are compared as a whole)         *)
 (*   paid     "lt" | "eq" | "gt"  amount vs 100*newc + 1*chg               *)
 (*   account  "same" | "other"   custodian account vs the previous one     *)
 (*   extraPrev   nodes of the previous state that the update drops         *)
